@@ -18,7 +18,9 @@ import PnVerif.Model.HeaderText
                                 leq       = Tools.logicalEqB on the library reader's parse (1/0, - if a file is invalid)
     P <nprocs> <len>*      -> P {<start>,<count>}* | ... (one group per rank: Tools.rankBox, the part of a variable of that
                                 shape a rank of ncmpidiff compares)
-    O <hexfile>            -> O <xsz> <extent> {<begin> <end>}*     (Tools.offsetsReport on Header.decodeWhole; ERR <code>)
+    O <hexfile>            -> O <xsz> <extent> {<begin> <end>}* R <recsize> <numrecs> {; f | {<start>,<end>}*}*
+                                (Tools.offsetsReport and, per record variable, Tools.offsetsRecs = `ncoffsets -r`, on
+                                Header.decodeWhole; ERR <code>)
 
   hex syntax: PnVerif/Model/HeaderText.lean
 -/
@@ -86,7 +88,12 @@ def step (cfg : Cfg) (line : String) : String :=
       | .ok (h, info) =>
         let (xsz, ext, vs) := offsetsReport h info
         let body := String.intercalate " " (vs.map (fun (b, e) => s!"{b} {e}"))
-        s!"O {xsz} {ext} {body}"
+        -- R: recsize, numrecs, then for every variable "f" or the (start,end) pairs of `ncoffsets -r` (Tools.offsetsRecs)
+        let recs := String.intercalate " ; " ((h.vars.zip info.shapes).map (fun (v, sh) =>
+          if isRecShape sh then
+            String.intercalate " " ((offsetsRecs v sh info.recsize h.numrecs).map (fun (a, b) => s!"{a},{b}"))
+          else "f"))
+        s!"O {xsz} {ext} {body} R {info.recsize} {h.numrecs} ; {recs}"
       | .error e => s!"ERR {e.code}"
     | none => "bad-hex"
   | _ => "bad-op"
